@@ -497,13 +497,13 @@ func c14Case(run *bsRun, csvAgree, textAgree bool) hx.Sx {
 		s := benchmath.NewSample(run.groups[g], &th)
 		samples[g] = s
 		sm := assumptionOf(g[0]).Summary(s, run.confidence)
-		osum = append(osum, hx.L(f64s(s.Values), hx.L(hx.F64(sm.Center), hx.F64(sm.Lo), hx.F64(sm.Hi))))
+		osum = append(osum, hx.L(hx.L(hx.I(g[0]), f64s(s.Values)), hx.L(hx.F64(sm.Center), hx.F64(sm.Lo), hx.F64(sm.Hi))))
 	}
 	for _, a := range gkeys {
 		for _, b := range gkeys {
 			if a[0] == b[0] && a[1] == b[1] && a[2] != b[2] {
 				cmp := assumptionOf(a[0]).Compare(samples[a], samples[b])
-				ocmp = append(ocmp, hx.L(f64s(samples[a].Values), f64s(samples[b].Values),
+				ocmp = append(ocmp, hx.L(hx.L(hx.I(a[0]), f64s(samples[a].Values)), f64s(samples[b].Values),
 					hx.L(hx.F64(cmp.P), hx.I(cmp.N1), hx.I(cmp.N2), hx.F64(cmp.Alpha))))
 			}
 		}
